@@ -126,9 +126,15 @@ class StaticWalk:
                 res.violation('static-segment-not-well-formed', f'{label} {what}: {err}', rp)
                 return
             if frag.tfdt is None:
-                res.violation('static-segment-without-tfdt', f'{label} {what}', rp)
-                return
-            tfdt = frag.tfdt[1]
+                if self.index.stored_has_tfdt(key):
+                    res.violation('static-segment-without-tfdt', f'{label} {what}', rp)
+                    return
+                # the stored file itself has no tfdt boxes (on-demand byte ranges serve it as it is):
+                # decode times are implied by the running sum
+                res.count('chain.segments_without_tfdt')
+                tfdt = expect if expect is not None else first
+            else:
+                tfdt = frag.tfdt[1]
             dur = sum(ib.sample_durations(frag.trun, frag.tfhd, sf.trex))
             if i == 0 and tfdt != first:
                 res.violation('static-first-segment-not-at-first-decode-time',
